@@ -111,10 +111,11 @@ def _initial_states():
 OPS = [
     ("set", "TITLE", None), ("set", "TITLE", "x"), ("set", "TITLE", SOUP), ("set", "ATTACKS", "a:b"), ("set", "ATTACKS", ""), ("set", "ATTACKS", None),
     ("set", "DISPLAYBPM", "1:2"), ("set", "STOPS", "x"), ("set", "FREEZES", "y"), ("set", "", "x"), ("set", "X Y", ""), ("set", "A:B", ("fresh", SOUP)),
-    ("alias", "X Y", "TITLE"),
+    ("alias", "X Y", "TITLE"), ("set", "NOTES2", "n2"),
+    ("pop", "TITLE"), ("popitem",), ("move_to_end", "TITLE"), ("update", [["TITLE", "u"], ["NEW", "v:w"]]), ("setdefault", "GENRE", "g"), ("clear",),
     ("del", "TITLE"), ("del", "ATTACKS"), ("del", "STOPS"), ("del", "FREEZES"),
     ("aset", "title", "t2"), ("adel", "title"), ("aset", "attacks", "p:q"), ("aset", "displaybpm", None), ("aset", "stops", "s2"), ("adel", "stops"),
-    ("c_append", "blank"), ("c_append", "meta"), ("c_append", "extra"), ("c_insert0", "meta"), ("c_pop",), ("c_reverse",), ("c_set0", "extra"), ("c_assign", ["blank", "meta"]),
+    ("c_append", "blank"), ("c_append", "meta"), ("c_append", "extra"), ("c_append", "scratch"), ("c_extra_append", 0, "x;y"), ("c_insert0", "meta"), ("c_pop",), ("c_reverse",), ("c_set0", "extra"), ("c_assign", ["blank", "meta"]),
     ("cf_attr", 0, "stepstype", "a:b"), ("cf_attr", 0, "notes", "0;1\n//2\\"), ("cf_key", 0, "METER", "\\"), ("cf_attr", 0, "description", ""),
     ("c_extra", 0, None), ("c_extra", 0, []), ("c_extra", 0, ["", "e:1"]),
 ]
